@@ -4,6 +4,8 @@ import (
 	"fmt"
 	"go/constant"
 	"go/token"
+	"go/types"
+	"sort"
 	"strings"
 
 	"golang.org/x/tools/go/ssa"
@@ -11,118 +13,356 @@ import (
 
 // Generator C for C06 (parsing never hangs), over the go/ssa of package syntax.
 //
-// Parser.rune returns the sentinel runeEOF forever once the input is exhausted (or an error stopped the lexer), so a
-// loop that advances the input by calling rune() can only be guaranteed to end if it has an exit that tests for that
-// sentinel. Obligation syntax#eof-exit@<func>:loop<N>: every natural loop whose blocks call Parser.rune contains a
-// comparison of a rune with runeEOF (or of a token with _EOF) that controls an edge leaving the loop.
+// Parser.rune returns the sentinel runeEOF forever once the input is exhausted (or an error stopped the lexer), and
+// Parser.next then yields the token _EOF forever. A loop whose progress is a call to rune() or next() therefore
+// terminates for every input only if it cannot keep cycling once those sentinels are all it sees.
+//
+// Obligation syntax#eof-exit@<func>:<rune|next><k>: take the function's CFG and assume the steady state at end of
+// input: every result of p.rune(), every load of p.r and every phi fed only by such values equals runeEOF (for calls
+// of next(): loads of p.tok equal _EOF). Branches whose condition is decided by that assumption (comparisons of such a
+// value with a constant, including the compare chains of a switch) keep only the taken edge; back edges of range
+// loops are removed (a range loop is bounded by the length taken on entry). The k-th call of rune()/next() in the
+// function must then not lie on a cycle. This is a sufficient condition decided on the real code's SSA; it is not a
+// termination proof of the parser (see the assumptions).
 
 func init() {
 	propGens["C06"] = append(propGens["C06"], genEOFExit)
 	propPkgs["C06"] = []string{syntaxPkg}
 }
 
+type eofMode int
+
+const (
+	eofRune eofMode = iota
+	eofTok
+)
+
 func genEOFExit(P *Program, CS *ContractSet, tier string) ([]*Obligation, []string, []string) {
 	var obls []*Obligation
 	runeEOF := int64(0x10FFFF + 1)
 	tokEOF, _ := langConst(P, "_EOF")
-	n := 0
-	for _, f := range pkgFunctions(P, syntaxPkg) {
-		e := &Enc{P: P, Fn: f, loops: map[int]*loopInfo{}, loopOf: map[int][]*loopInfo{}}
-		e.findLoops()
-		for hi, li := range e.loops {
-			callsRune := false
-			for bi := range li.blocks {
-				for _, ins := range f.Blocks[bi].Instrs {
+	nr, nn := 0, 0
+	fns := pkgFunctions(P, syntaxPkg)
+	sort.Slice(fns, func(i, j int) bool { return shortFuncName(fns[i]) < shortFuncName(fns[j]) })
+	for _, f := range fns {
+		if len(f.Blocks) == 0 {
+			continue
+		}
+		for _, mode := range []eofMode{eofRune, eofTok} {
+			target := "syntax.Parser.rune"
+			label := "rune"
+			if mode == eofTok {
+				target, label = "syntax.Parser.next", "next"
+			}
+			type site struct {
+				b   *ssa.BasicBlock
+				pos token.Pos
+			}
+			var sites []site
+			for _, b := range f.Blocks {
+				for _, ins := range b.Instrs {
 					if ci, ok := ins.(ssa.CallInstruction); ok {
-						if callee := ci.Common().StaticCallee(); callee != nil && shortFuncName(callee) == "syntax.Parser.rune" {
-							callsRune = true
+						if _, isGo := ins.(*ssa.Go); isGo {
+							continue
+						}
+						if _, isDefer := ins.(*ssa.Defer); isDefer {
+							continue
+						}
+						if callee := ci.Common().StaticCallee(); callee != nil && shortFuncName(callee) == target {
+							sites = append(sites, site{b, ins.Pos()})
 						}
 					}
 				}
 			}
-			if !callsRune {
+			if len(sites) == 0 {
 				continue
 			}
-			n++
-			hasExit := false
-			for bi := range li.blocks {
-				b := f.Blocks[bi]
-				iff, ok := lastInstr(b).(*ssa.If)
-				if !ok {
-					continue
-				}
-				leaves := false
-				for _, s := range b.Succs {
-					if !li.blocks[s.Index] {
-						leaves = true
+			succ, alts := eofPrunedSuccs(f, mode, runeEOF, tokEOF)
+			for k, s := range sites {
+				onCycle := reachesItself(s.b.Index, succ)
+				for _, alt := range alts {
+					if reachesItself(s.b.Index, alt) {
+						onCycle = true
 					}
 				}
-				if !leaves {
-					continue
+				if !inAnyLoop(f, s.b) {
+					continue // straight-line call: nothing to decide
 				}
-				if condTestsEOF(iff.Cond, runeEOF, tokEOF, 0) {
-					hasExit = true
+				if mode == eofRune {
+					nr++
+				} else {
+					nn++
 				}
-			}
-			pos := token.NoPos
-			for _, ins := range f.Blocks[hi].Instrs {
-				if ins.Pos().IsValid() {
-					pos = ins.Pos()
-					break
+				name := fmt.Sprintf("syntax#eof-exit@%s:%s%d", strings.TrimPrefix(shortFuncName(f), "syntax."), label, k+1)
+				d := "a loop that advances the input with " + label + "() cannot keep cycling once the input has ended (all later " + label + "() results are the end-of-input sentinel)"
+				if onCycle {
+					d += "; this call stays on a cycle under that assumption: the loop has no exit that end of input forces"
 				}
+				obls = append(obls, structOb(name, "structural", !onCycle, d, posStr(P, P.Prog.Fset, s.pos)))
 			}
-			if !pos.IsValid() {
-				for bi := range li.blocks {
-					for _, ins := range f.Blocks[bi].Instrs {
-						if ins.Pos().IsValid() && (!pos.IsValid() || ins.Pos() < pos) {
-							pos = ins.Pos()
-						}
-					}
-				}
-			}
-			name := fmt.Sprintf("syntax#eof-exit@%s:loop%d", strings.TrimPrefix(shortFuncName(f), "syntax."), li.ordinal)
-			d := "a loop that advances the input with rune() has an exit that tests for end of input (runeEOF / _EOF)"
-			if !hasExit {
-				d += "; this loop has none: it does not terminate when the input ends first"
-			}
-			obls = append(obls, structOb(name, "structural", hasExit, d, posStr(P, P.Prog.Fset, pos)))
 		}
 	}
-	obls = append(obls, structOb("syntax#eof-exit@loops-found", "structural", n >= 10, fmt.Sprintf("loops calling rune(): %d (at least 10 expected)", n), ""))
-	return obls, []string{"syntax (all loops that call Parser.rune)"}, []string{
-		"C06: Parser.rune returns runeEOF forever once the input is exhausted or an error was raised (not proved here)",
-		"C06: loops that advance with next() or through helper calls, recursion depth and running time are not covered",
+	obls = append(obls, structOb("syntax#eof-exit@sites-found", "structural", nr >= 20 && nn >= 5,
+		fmt.Sprintf("calls inside loops: rune() %d (at least 20 expected), next() %d (at least 5 expected)", nr, nn), ""))
+	return obls, []string{"syntax (all loops that directly call Parser.rune or Parser.next)"}, []string{
+		"C06: Parser.rune returns runeEOF forever once the input is exhausted or an error was raised, and Parser.next then returns _EOF forever (checked only for the buffer layer, see the fill/peek contracts)",
+		"C06: loops whose progress is made inside helper calls, recursion depth and running time are not covered",
 	}
 }
 
-func condTestsEOF(v ssa.Value, runeEOF, tokEOF int64, depth int) bool {
-	if depth > 4 {
+func inAnyLoop(f *ssa.Function, b *ssa.BasicBlock) bool {
+	succ := make([][]int, len(f.Blocks))
+	for _, x := range f.Blocks {
+		for _, s := range x.Succs {
+			succ[x.Index] = append(succ[x.Index], s.Index)
+		}
+	}
+	return reachesItself(b.Index, succ)
+}
+
+func reachesItself(start int, succ [][]int) bool {
+	seen := map[int]bool{}
+	stack := append([]int(nil), succ[start]...)
+	for len(stack) > 0 {
+		n := stack[len(stack)-1]
+		stack = stack[:len(stack)-1]
+		if n == start {
+			return true
+		}
+		if seen[n] {
+			continue
+		}
+		seen[n] = true
+		stack = append(stack, succ[n]...)
+	}
+	return false
+}
+
+// eofPrunedSuccs returns the successor lists of f's blocks under the end-of-input steady-state assumption.
+type selfPhi struct {
+	phi    *ssa.Phi
+	tEdges [][2]int
+}
+
+func eofPrunedSuccs(f *ssa.Function, mode eofMode, runeEOF, tokEOF int64) (pruned [][]int, alts [][][]int) {
+	succ, selfPhis := eofPruned1(f, mode, runeEOF, tokEOF, nil, nil)
+	// A sentinel phi with a self edge keeps its entry value for as long as only the self edge is taken. An infinite run
+	// either takes one of the phi's sentinel edges infinitely often (the pruned graph covers it) or eventually stays in
+	// the CFG without those edges: one alternative graph per such phi, pruned without any fact about that phi, covers
+	// that case.
+	for _, sp := range selfPhis {
+		alt, _ := eofPruned1(f, mode, runeEOF, tokEOF, sp.phi, sp.tEdges)
+		alts = append(alts, alt)
+	}
+	return succ, alts
+}
+
+func eofPruned1(f *ssa.Function, mode eofMode, runeEOF, tokEOF int64, banned *ssa.Phi, removed [][2]int) ([][]int, []selfPhi) {
+	var selfPhis []selfPhi
+	sentinel := map[ssa.Value]bool{}
+	sval := map[ssa.Value]int64{}
+	sv := runeEOF
+	if mode == eofTok {
+		sv = tokEOF
+	}
+	isSentinelLoad := func(v ssa.Value) bool {
+		u, ok := v.(*ssa.UnOp)
+		if !ok || u.Op != token.MUL {
+			return false
+		}
+		fa, ok := u.X.(*ssa.FieldAddr)
+		if !ok {
+			return false
+		}
+		pt, ok := fa.X.Type().Underlying().(*types.Pointer)
+		if !ok {
+			return false
+		}
+		named, ok := pt.Elem().(*types.Named)
+		if !ok || named.Obj().Name() != "Parser" {
+			return false
+		}
+		st := named.Underlying().(*types.Struct)
+		fn := st.Field(fa.Field).Name()
+		return (mode == eofRune && fn == "r") || (mode == eofTok && fn == "tok")
+	}
+	for _, b := range f.Blocks {
+		for _, ins := range b.Instrs {
+			v, ok := ins.(ssa.Value)
+			if !ok {
+				continue
+			}
+			if c, ok := ins.(*ssa.Call); ok && mode == eofRune {
+				if callee := c.Common().StaticCallee(); callee != nil {
+					switch shortFuncName(callee) {
+					case "syntax.Parser.rune":
+						sentinel[v], sval[v] = true, sv
+					case "syntax.Parser.peek":
+						// peek returns utf8.RuneSelf when no byte is left
+						sentinel[v], sval[v] = true, 0x80
+					}
+				}
+			}
+			if ex, ok := ins.(*ssa.Extract); ok && mode == eofRune {
+				if c, ok := ex.Tuple.(*ssa.Call); ok {
+					if callee := c.Common().StaticCallee(); callee != nil && shortFuncName(callee) == "syntax.Parser.peekTwo" {
+						sentinel[v], sval[v] = true, 0x80
+					}
+				}
+			}
+			if isSentinelLoad(v) {
+				sentinel[v], sval[v] = true, sv
+			}
+		}
+	}
+	// phis and conversions fed only by sentinels (ignoring the edges that enter a loop from outside is not needed for
+	// soundness: only in-cycle values matter, so a phi counts if every edge coming from a block that can reach the phi's
+	// block again is a sentinel).
+	fullSucc := make([][]int, len(f.Blocks))
+	for _, x := range f.Blocks {
+		for _, s := range x.Succs {
+			fullSucc[x.Index] = append(fullSucc[x.Index], s.Index)
+		}
+	}
+	reach := func(from, to int) bool {
+		seen := map[int]bool{}
+		stack := []int{from}
+		for len(stack) > 0 {
+			n := stack[len(stack)-1]
+			stack = stack[:len(stack)-1]
+			if n == to {
+				return true
+			}
+			if seen[n] {
+				continue
+			}
+			seen[n] = true
+			stack = append(stack, fullSucc[n]...)
+		}
 		return false
 	}
-	switch x := v.(type) {
-	case *ssa.BinOp:
-		switch x.Op {
-		case token.EQL, token.NEQ:
-			for _, op := range []ssa.Value{x.X, x.Y} {
-				if c, ok := op.(*ssa.Const); ok && c.Value != nil && c.Value.Kind() == constant.Int {
-					if iv, ok := constant.Int64Val(c.Value); ok {
-						tn := c.Type().String()
-						if (iv == runeEOF && (strings.HasSuffix(tn, "rune") || strings.HasSuffix(tn, "int32"))) || (iv == tokEOF && strings.HasSuffix(tn, "token")) {
-							return true
+	for changed := true; changed; {
+		changed = false
+		for _, b := range f.Blocks {
+			for _, ins := range b.Instrs {
+				switch x := ins.(type) {
+				case *ssa.Phi:
+					if sentinel[x] || x == banned {
+						continue
+					}
+					all, any, self := true, false, false
+					var val int64
+					var tEdges [][2]int
+					for i, e := range x.Edges {
+						pred := b.Preds[i]
+						// only edges from blocks the phi's block can reach (in-cycle edges)
+						if !reach(b.Index, pred.Index) {
+							continue
 						}
+						if e == ssa.Value(x) {
+							self = true
+							continue
+						}
+						if !sentinel[e] || (any && sval[e] != val) {
+							all = false
+							continue
+						}
+						any = true
+						val = sval[e]
+						tEdges = append(tEdges, [2]int{pred.Index, b.Index})
+					}
+					if all && any {
+						sentinel[x], sval[x] = true, val
+						changed = true
+						if self {
+							selfPhis = append(selfPhis, selfPhi{x, tEdges})
+						}
+					}
+				case *ssa.ChangeType:
+					if sentinel[x.X] && !sentinel[x] {
+						sentinel[x], sval[x] = true, sval[x.X]
+						changed = true
 					}
 				}
 			}
 		}
-	case *ssa.UnOp:
-		return condTestsEOF(x.X, runeEOF, tokEOF, depth+1)
-	case *ssa.Phi:
-		// short-circuit conditions: a && b
-		for _, e := range x.Edges {
-			if condTestsEOF(e, runeEOF, tokEOF, depth+1) {
-				return true
+	}
+	var decide func(v ssa.Value, depth int) (bool, bool)
+	decide = func(v ssa.Value, depth int) (val bool, known bool) {
+		if depth > 3 {
+			return false, false
+		}
+		switch x := v.(type) {
+		case *ssa.UnOp:
+			if x.Op == token.NOT {
+				r, k := decide(x.X, depth+1)
+				return !r, k
+			}
+		case *ssa.BinOp:
+			var c *ssa.Const
+			var other ssa.Value
+			flip := false
+			if cc, ok := x.Y.(*ssa.Const); ok {
+				c, other = cc, x.X
+			} else if cc, ok := x.X.(*ssa.Const); ok {
+				c, other, flip = cc, x.Y, true
+			}
+			if c == nil || c.Value == nil || c.Value.Kind() != constant.Int || !sentinel[other] {
+				return false, false
+			}
+			cv, ok := constant.Int64Val(c.Value)
+			if !ok {
+				return false, false
+			}
+			a, b := sval[other], cv
+			if flip {
+				a, b = cv, sval[other]
+			}
+			switch x.Op {
+			case token.EQL:
+				return a == b, true
+			case token.NEQ:
+				return a != b, true
+			case token.LSS:
+				return a < b, true
+			case token.LEQ:
+				return a <= b, true
+			case token.GTR:
+				return a > b, true
+			case token.GEQ:
+				return a >= b, true
 			}
 		}
+		return false, false
 	}
-	return false
+	succ := make([][]int, len(f.Blocks))
+	for _, b := range f.Blocks {
+		if iff, ok := lastInstr(b).(*ssa.If); ok && len(b.Succs) == 2 {
+			if val, known := decide(iff.Cond, 0); known {
+				if val {
+					succ[b.Index] = []int{b.Succs[0].Index}
+				} else {
+					succ[b.Index] = []int{b.Succs[1].Index}
+				}
+				continue
+			}
+		}
+		for _, s := range b.Succs {
+			isRemoved := false
+			for _, te := range removed {
+				if te[0] == b.Index && te[1] == s.Index {
+					isRemoved = true
+				}
+			}
+			if isRemoved {
+				continue
+			}
+			// a range loop is bounded by the length (or channel/map) taken on entry: drop its back edges
+			if (s.Comment == "rangeindex.loop" || s.Comment == "rangeiter.loop") && s.Dominates(b) {
+				continue
+			}
+			succ[b.Index] = append(succ[b.Index], s.Index)
+		}
+	}
+	return succ, selfPhis
 }
